@@ -4,6 +4,7 @@ C01 — PDB-format reading recovers exactly what the records state (theorems abo
 texts and on every single-field corruption).
 -/
 import PdbModel.PdbRead
+import PdbModel.Lemmas.Add
 namespace PdbModel
 
 /-- a field that produced no diagnostic IS the parsed text of its columns: the value is never the default -/
@@ -66,5 +67,102 @@ theorem C01_no_made_up_value (o : ReadOpts) (lines : List (List Char)) (f : PdbF
   intro d hd
   have := key d hd
   constructor <;> intro hl <;> rw [hl] at this <;> revert this <;> cases o.level <;> simp [ErrorLevel.fails]
+
+/-! ### grouping: one chain per chain id, one residue per (number, insertion code), one conformer per
+(name, alternate location), each in order of first appearance
+
+The reader keeps the current model as an insertion-ordered map of chains, each an insertion-ordered map of
+residues (`IndexMap` in the code, `assocUpsert` in the model), and adds the atom to the residue with
+`Residue::add_atom`. -/
+
+section Grouping
+variable {K V : Type} [BEq K] [LawfulBEq K] [DecidableEq K]
+
+theorem keys_assocUpsert (l : List (K × V)) (k : K) (g : Option V → V) :
+    (assocUpsert l k g).map Prod.fst =
+      if k ∈ l.map Prod.fst then l.map Prod.fst else l.map Prod.fst ++ [k] := by
+  induction l with
+  | nil => simp [assocUpsert]
+  | cons p r ih =>
+    obtain ⟨a, v⟩ := p
+    unfold assocUpsert
+    by_cases h : a = k
+    · subst h; simp
+    · have h1 : (a == k) = false := by simpa using h
+      have h2 : ¬ k = a := fun e => h e.symm
+      simp only [h1, Bool.false_eq_true, if_false, List.map_cons, ih, List.mem_cons, h2, false_or]
+      split <;> simp
+
+/-- the keys of the map after any sequence of entries: the distinct keys in order of first appearance -/
+theorem keys_foldl_assocUpsert {Op : Type} (key : Op → K) (g : Op → Option V → V) (ops : List Op)
+    (l : List (K × V)) :
+    (ops.foldl (fun m o => assocUpsert m (key o) (g o)) l).map Prod.fst =
+      ops.foldl (fun acc o => if key o ∈ acc then acc else acc ++ [key o]) (l.map Prod.fst) := by
+  induction ops generalizing l with
+  | nil => rfl
+  | cons o os ih => simp only [List.foldl_cons]; rw [ih, keys_assocUpsert]
+
+end Grouping
+
+/-- **one chain per chain id, in order of first appearance**: whatever ATOM/HETATM records are placed into
+the current model, its chain ids are the distinct chain ids of the records in their order of first
+appearance (`dedupK` = keep the first occurrence) -/
+theorem C01_chains_first_appearance (ops : List (String × ResId × (Option Residue → Residue))) :
+    (ops.foldl (fun m o => upsertChain m o.1 o.2.1 o.2.2) []).map Prod.fst = dedupK (ops.map (·.1)) := by
+  unfold upsertChain
+  rw [keys_foldl_assocUpsert (key := fun o : String × ResId × (Option Residue → Residue) => o.1)
+    (g := fun o rs? => assocUpsert (rs?.getD []) o.2.1 o.2.2)]
+  unfold dedupK
+  simp only [List.map_nil]
+  rw [List.foldl_map]
+
+/-- … and no chain id occurs twice -/
+theorem C01_chain_ids_distinct (ops : List (String × ResId × (Option Residue → Residue))) :
+    ((ops.foldl (fun m o => upsertChain m o.1 o.2.1 o.2.2) []).map Prod.fst).Nodup := by
+  rw [C01_chains_first_appearance, dedupK_eq]
+  exact Grp.nodup_dedup _
+
+/-- **one residue per (number, insertion code)** inside a chain: placing an atom keeps the residue keys of
+every chain free of repetitions -/
+theorem C01_residue_ids_distinct (m : ChainMap) (cid : String) (key : ResId) (f : Option Residue → Residue)
+    (h : ∀ c ∈ m, (c.2.map Prod.fst).Nodup) : ∀ c ∈ upsertChain m cid key f, (c.2.map Prod.fst).Nodup := by
+  unfold upsertChain
+  induction m with
+  | nil =>
+    intro c hc
+    simp only [assocUpsert, List.mem_singleton] at hc
+    subst hc
+    simp [assocUpsert]
+  | cons p r ih =>
+    obtain ⟨a, rs⟩ := p
+    intro c hc
+    unfold assocUpsert at hc
+    split at hc
+    · simp only [List.mem_cons] at hc
+      rcases hc with rfl | hc
+      · have hrs := h (a, rs) (by simp)
+        simp only [Option.getD_some]
+        rw [keys_assocUpsert]
+        split
+        · exact hrs
+        · next hk =>
+          rw [List.nodup_append]
+          refine ⟨hrs, by simp, ?_⟩
+          intro x hx y hy
+          simp at hy; subst hy
+          intro e; subst e; exact hk hx
+      · exact h c (by simp [hc])
+    · simp only [List.mem_cons] at hc
+      rcases hc with rfl | hc
+      · exact h _ (by simp)
+      · exact ih (fun c hc => h c (by simp [hc])) c hc
+
+/-- **one conformer per (residue name, alternate location)**: `Residue::add_atom` as the reader calls it keeps
+the conformer identifiers distinct and appends the atom to the conformer with that identifier -/
+theorem C01_conformer_ids_distinct (r : Residue) (a : Atom) (name : String) (alt : Option String)
+    (h : (r.conformers.map Conformer.cid).Nodup) :
+    ((r.addAtomRaw a name alt).conformers.map Conformer.cid).Nodup := by
+  unfold Residue.addAtomRaw Residue.addAtomN
+  exact nodup_upsertC Conformer.cid Conformer.empty (Conformer.push a) (fun _ => rfl) (fun _ => rfl) _ _ h
 
 end PdbModel
